@@ -200,13 +200,23 @@ def run(tier):
                 mapped = dict(oas30_to_2020(body))
                 if comps:         # the components stay at the root of the document, whatever wraps the (nullable) schema
                     mapped["components"] = {"schemas": {n: oas30_to_2020(x) for n, x in comps.items()}}
-                got = jsonschema.Draft201909Validator(mapped).is_valid(real)
+                try:
+                    got = jsonschema.Draft201909Validator(mapped).is_valid(real)
+                except Exception as e:
+                    R.violation(f"OPEN_API_3_0 schema cannot be validated through its documented mapping: {type(e).__name__}: "
+                                f"{str(e)[:200]}", dict(c.to_json(), version=vname, schema=doc))
+                    continue
                 if got != ref and not (drops(docs["DRAFT_2020_12"]) and got and not ref):
                     R.violation(f"OPEN_API_3_0 schema (documented mapping) {'accepts' if got else 'rejects'} data that the "
                                 f"2020-12 schema {'accepts' if ref else 'rejects'}",
                                 dict(c.to_json(), version=vname, schema=doc, schema_2020_12=docs["DRAFT_2020_12"]))
             else:
-                got = VALIDATORS[vname](to_resolvable(doc, vname)).is_valid(real)
+                try:
+                    got = VALIDATORS[vname](to_resolvable(doc, vname)).is_valid(real)
+                except Exception as e:       # e.g. a $ref pointing to nowhere in the converted document
+                    R.violation(f"{vname} schema cannot be used by the dialect's validator: {type(e).__name__}: {str(e)[:200]}",
+                                dict(c.to_json(), version=vname, schema=doc, schema_2020_12=docs["DRAFT_2020_12"]))
+                    continue
                 if got != ref:
                     R.violation(f"{vname} schema {'accepts' if got else 'rejects'} data that the 2020-12 schema "
                                 f"{'accepts' if ref else 'rejects'}",
